@@ -472,11 +472,29 @@ func summarise(c *core.Ctx, s *c20side, recv ssa.Value, p *paths.Path) *pathFact
 			}
 			if b, isB := e.Cond.(*ssa.BinOp); isB {
 				// integer comparisons: mark count checks, record equalities
-				for _, side := range []ssa.Value{b.X, b.Y} {
-					sv := e.Resolve(side)
+				// a count is looked at directly or as a term of a sum (nn, _ := w.WriteString(s); np, _ := w.Write(pad);
+				// nn += np; if nn != n)
+				var leaves func(v ssa.Value, depth int)
+				leaves = func(v ssa.Value, depth int) {
+					sv := e.Resolve(v)
 					if _, tracked := f.cntChecks[sv]; tracked {
 						f.cntChecks[sv] = true
 					}
+					if depth > 6 {
+						return
+					}
+					switch x := sv.(type) {
+					case *ssa.BinOp:
+						if x.Op == token.ADD || x.Op == token.SUB {
+							leaves(x.X, depth+1)
+							leaves(x.Y, depth+1)
+						}
+					case *ssa.Convert:
+						leaves(x.X, depth+1)
+					}
+				}
+				for _, side := range []ssa.Value{b.X, b.Y} {
+					leaves(side, 0)
 				}
 				equal := (b.Op == token.EQL && e.Taken) || (b.Op == token.NEQ && !e.Taken)
 				if equal {
